@@ -342,7 +342,8 @@ OBLIGATIONS = [
     ('C03.O2', 'one cut-off predicate in all siblings', 'synchronized_inputs, confirmed_inputs, the spectator lookup and the '
      'lockstep assertion all decide `disconnected & last_frame < F` with F the frame being built.', o2),
     ('C03.O3', 'local inputs are confirmed', 'register_local_inputs precedes every input fetch and registers every local handle.', o3),
-    ('C03.O5', 'prediction is reset on every rollback, for every queue (= C01.O2, C01.O2b)', 'see C01.O2b', c01.o2b),
+    ('C03.O5', 'prediction is reset on every rollback, for every queue (= C01.O2b)', 'see C01.O2b', c01.o2b),
+    ('C03.O6', 'every rollback resets the prediction before resimulating (= C01.O2)', 'see C01.O2', c01.o2),
     ('C03.O4', 'last_frame provenance', 'local_connect_status[..].last_frame is stored only from inserted local inputs, '
      'inserted fills, and sequential remote inputs of connected players (paired with add_remote_input); confirmed_frame() '
      'is a min over connected players.', o4),
